@@ -6,7 +6,7 @@
    normalisers and map-order independence are covered by iteration of the implementation
    (tools/props/c04.py), the leaf codecs by C06, read-only envelope operations by C10. *)
 From Coq Require Import ZArith List Bool.
-From Verif Require Import Base.Wire Num.Amount Calc.Doc Calc.Calc Calc.Symmetry Calc.CurrencySpec Calc.FixpointProofs.
+From Verif Require Import Base.Wire Num.Amount Calc.Doc Calc.Calc Calc.Symmetry Calc.CurrencySpec Calc.FixpointProofs Calc.FixpointGenProofs.
 Import ListNotations.
 Open Scope Z_scope.
 
@@ -17,6 +17,16 @@ Theorem calc_fixpoint_currency_rule d d1 :
   fixpoint_doc_wf d -> as_input d = Some d1 -> calculate d1 = calculate d.
 Proof. exact (calc_fixpoint_currency d d1). Qed.
 Print Assumptions calc_fixpoint_currency_rule.
+
+
+(* EITHER rule: the fixpoint holds whenever no fixed amount carries more decimals than it is presented
+   with - no_excess_doc d: fixed line discount/charge amounts have at most the stored item price's
+   decimals, fixed document discount/charge amounts (which then have no base) and fixed advances at most
+   the currency's.  This is exactly the complement of the known finding below. *)
+Theorem calc_fixpoint_without_excess_decimals d d1 :
+  no_excess_doc d -> as_input d = Some d1 -> calculate d1 = calculate d.
+Proof. exact (calc_fixpoint_no_excess d d1). Qed.
+Print Assumptions calc_fixpoint_without_excess_decimals.
 
 (* sub-lines and row amounts re-read to themselves under BOTH rules *)
 Theorem subline_fixpoint cr c cur rates sl sc :
